@@ -3,6 +3,7 @@ from plib import *
 from props.builder import PProg
 from props.common import ProgRunner
 
+EXTRA_AUDITS = ["WidgetTie"]
 LEAN_TARGETS = ["Plonk.Props.C14", "Plonk.Props.WidgetTie"]
 ASSUMPTIONS = ["JubJub group structure as an explicit hypothesis of 'output = [s]G'",
                "prover success coincides with 'every row identity holds' outside explicit bad-challenge sets"]
